@@ -373,6 +373,14 @@ func (b *Book) ingestSwap(o *HTTPObs) {
 		if out+fee > in {
 			b.Violate("C02.swap_balance", "swap", "swap signed %d for inputs %d with fee %d", out, in, fee)
 		}
+		// a real wallet asks for exactly inputs minus the fee the mint charges: anything less is
+		// value that ends up nowhere (C17: holdings + melted + mint fees add up)
+		if _, isWallet := b.w.Wallets[o.From]; isWallet && fresh > 0 && out+fee < in {
+			b.w.S.Stats["c17_swap_fee_exact_checked"]++
+			b.Violate("C17.value_lost", "swap-overpaid|"+b.w.LastWalletOp, "wallet %s swapped inputs worth %d for outputs worth %d; the mint's fee for these inputs is %d: %d sat end up nowhere (during [%s])", o.From, in, out, fee, in-fee-out, b.w.LastWalletOp)
+		} else if isWallet {
+			b.w.S.Stats["c17_swap_fee_exact_checked"]++
+		}
 	} else if !ok1 {
 		b.Violate("C02.swap_balance", "swap_overflow", "swap accepted inputs whose sum overflows")
 	}
